@@ -15,6 +15,10 @@ CHECKS = {
             "state (covers histories of any length), textual/unparsable limits, defaults and the window; exact agreement with a reference "
             "limiter (safety and liveness half). Concurrent hits: see known findings / DESIGN."),
 }
+CHECKS["C03"] = ("§5 C03", "All feasible paths of the real matching code (location_from_event, *Location.at_location, __actions_for_location, "
+    "build_trigger, convert_response, add_custom) for 1-3 tracepoints and 1-2 events: a tracepoint acts iff the documented match holds, every "
+    "matching tracepoint acts exactly once with every action kind, nothing else happens. Line numbers unbounded where the code only compares them; "
+    "paths as free symbolic strings <= 4 chars.")
 PENDING = {}
 
 def main():
